@@ -174,11 +174,19 @@ def run_case(args):
     for s in services:
         clients += [f"{s}Client", f"{s}AsyncClient"]
     probe = gen.impl("c01_probe", {"root": root, "packages": tops, "main": main, "clients": clients})
+    # services declared in a proto sub-package are exported by that sub-package
+    sub_probe = None
+    subs = sorted({re.sub(r"/services/.*$", "", n).replace("/", ".") for n in names
+                   if main and n.startswith(main.replace(".", "/") + "/") and "/services/" in n and not n.startswith(main.replace(".", "/") + "/services/")})
+    if subs and probe["import_ok"]:
+        sub_probe = gen.impl("c01_probe", {"root": root, "packages": [], "main": subs[0], "clients": clients})
     if not probe["import_ok"]:
         res["violations"].append((f"emitted package does not import: {probe['errors'][:3]}", case, None))
     else:
         for s in services:
             c, a = probe["clients"].get(f"{s}Client"), probe["clients"].get(f"{s}AsyncClient")
+            if not c and sub_probe is not None:
+                c, a = sub_probe["clients"].get(f"{s}Client"), sub_probe["clients"].get(f"{s}AsyncClient")
             if not c:
                 res["violations"].append((f"no synchronous client {s}Client in {main}", case, None))
                 continue
@@ -198,7 +206,9 @@ def run_case(args):
             if m:
                 by_svc.setdefault(m.group(1), {})[m.group(2)] = files[n]
         for svc, mods in by_svc.items():
-            res["checks"].append((f"#{idx}/{oi} {svc}: emitted service modules", f"list_eqb String.eqb (emitted_modules {O}) {coq.slist(sorted(mods))}"))
+            # pagers.py is rendered for every service but dropped by _get_file when the service has no paged method (utils.empty)
+            listed = sorted(set(mods) | {"pagers"})
+            res["checks"].append((f"#{idx}/{oi} {svc}: emitted service modules", f"list_eqb String.eqb (emitted_modules {O}) {coq.slist(listed)}"))
             for mod, src in mods.items():
                 try:
                     ung, _ = relative_imports(src)
